@@ -176,11 +176,15 @@ func (w *Flushable) Drop() {
 
 // NotFlushedPairs returns num of not flushed keys, including deleted keys.
 func (w *Flushable) NotFlushedPairs() int {
+	w.lock.RLock()
+	defer w.lock.RUnlock()
 	return w.modified.Size()
 }
 
 // NotFlushedSizeEst returns estimation of not flushed data, including deleted keys.
 func (w *Flushable) NotFlushedSizeEst() int {
+	w.lock.RLock()
+	defer w.lock.RUnlock()
 	return *w.sizeEstimation
 }
 
@@ -228,11 +232,15 @@ func (w *Flushable) flush() error {
 
 // Stat returns a particular internal stat of the database.
 func (w *Flushable) Stat(property string) (string, error) {
+	w.lock.RLock()
+	defer w.lock.RUnlock()
 	return w.underlying.Stat(property)
 }
 
 // Compact flattens the underlying data store for the given key range.
 func (w *Flushable) Compact(start []byte, limit []byte) error {
+	w.lock.RLock()
+	defer w.lock.RUnlock()
 	return w.underlying.Compact(start, limit)
 }
 
